@@ -109,8 +109,13 @@ class Model:
     precondition; ``key_dedup`` the functional-dependency precondition of the
     iteration engine's key-only deduplication."""
 
-    def __init__(self, leaves: dict, sql_slices: bool = False, key_dedup: bool = False, strict_fragile: bool = False, ordered_engines=()):
+    def __init__(self, leaves: dict, sql_slices: bool = False, key_dedup: bool = False, strict_fragile: bool = False, ordered_engines=(), stable_sorts: bool = False):
         self.leaves = leaves
+        # ``stable_sorts``: a sort applied to a relation whose order was already defined by an
+        # earlier, still visible sort composes stably with it (new terms first, earlier terms as
+        # tie-breakers - the documented meaning of back-to-back sorts, Sort.then).  Only valid for
+        # an engine when both sorts end up at the same query level; the caller checks that.
+        self.stable_sorts = stable_sorts
         # engines whose leaves deliver rows in a defined (payload) order; entering any other
         # engine through a transfer forgets the order
         self.ordered_engines = set(ordered_engines)
@@ -150,6 +155,12 @@ class Model:
             return dataclasses.replace(t, rows=list(t.rows), det=keep)
         if op == "mark":
             return self.eval(prog[1])
+        if op == "cap":
+            t = self.eval(prog[1])
+            return dataclasses.replace(t, rows=list(t.rows) if len(t.rows) <= prog[2] else [])
+        if op == "rev":
+            t = self.eval(prog[1])
+            return dataclasses.replace(t, rows=list(reversed(t.rows)))
         if op == "xfer":
             t = self.eval(prog[1])
             keep = t.det and not prog[2].startswith("sql") and (not self.ordered_engines or prog[2] in self.ordered_engines)
@@ -213,6 +224,8 @@ class Model:
             if not need <= t.cols:
                 raise ModelError("sort columns missing")
             rows = m_sort(t.rows, terms)
+            if self.stable_sorts and t.det and t.sort_cols is not None and t.sort_visible and not sort_is_total(rows, terms):
+                return MRel(t.cols, rows, True, frozenset(need) | t.sort_cols, True, engine=t.engine)
             return MRel(t.cols, rows, sort_is_total(rows, terms), frozenset(need), True, engine=t.engine)
         if op == "slice":
             start, stop = prog[2], prog[3]
@@ -272,6 +285,10 @@ def show(prog) -> str:
         return f"{s}.mat({prog[2]})"
     if op == "mark":
         return f"{s}.mark({prog[2]})"
+    if op == "cap":
+        return f"{s}.cap({prog[2]})"
+    if op == "rev":
+        return f"{s}.rev()"
     if op == "xfer":
         return f"{s}.to({prog[2]})"
     return str(prog)
